@@ -68,6 +68,10 @@ SkipExactly ==
        (st[n].k = "chk") => (emit.sk <=> ShouldSkipFn(SubSeq(st, 1, n - 1), st[n].f))
 \* the stack of a task stays bounded by the size of the program (no unbounded recursion)
 Bounded == \A t \in Tasks : Len(stack[t]) <= 8 * (Len(prog.fn) + Len(prog.con) + 2)
+\* Termination (C10): the event history grows with every event, so the state graph of a program is acyclic and
+\* TLC finishing the exploration shows there is no infinite behaviour; a behaviour can only end in a state where every
+\* task is done (a library frame without an applicable step is an evaluation error of a CASE, reported by TLC).
+NoStuck == AllDone \/ \E t \in Tasks : status[t] \in {"ready", "susp"}
 \* when a task is back in its driver, nothing is suspended for it
 Rearmed == \A t \in Tasks : (status[t] # "idle" /\ busy # t /\ Len(stack[t]) <= 1) => View(t) = {}
 
